@@ -419,13 +419,19 @@ int main(int argc, char** argv) {
         {"calls23", "rel", {2, 3}},         {"calls1+update", "rel", {1, 4}},
         {"calls2+update", "rel", {2, 4}},   {"calls12+update", "rel", {1, 2, 4}},
     };
+    for (const char* p : {"dbg", "map", "ind"}) {
+        scenarios.push_back({"calls12", p, {1, 2}});
+        scenarios.push_back({"calls23", p, {2, 3}});
+        scenarios.push_back({"calls2+update", p, {2, 4}});
+    }
+    scenarios.push_back({"calls123", "rel", {1, 2, 3}});
     if (mode == "thorough") {
         for (const char* p : {"dbg", "map", "ind"}) {
-            scenarios.push_back({"calls12", p, {1, 2}});
-            scenarios.push_back({"calls23", p, {2, 3}});
-            scenarios.push_back({"calls2+update", p, {2, 4}});
+            scenarios.push_back({"calls13", p, {1, 3}});
+            scenarios.push_back({"calls12+update", p, {1, 2, 4}});
+            scenarios.push_back({"calls123", p, {1, 2, 3}});
         }
-        scenarios.push_back({"calls123", "rel", {1, 2, 3}});
+        scenarios.push_back({"calls123+update", "rel", {1, 2, 3, 4}});
     }
     int maxbound = mode == "thorough" ? 3 : 2;
     if (only == "list") {
